@@ -720,6 +720,8 @@ void File::uncompressedFile2ReadWriteQueue() {
         return;
     }
     m_uncompressedFile.seekg(-ohb.calculateHeaderSize(), std::ios_base::cur);
+    if (ohb.objectSize < ohb.calculateHeaderSize())
+        throw Exception("File::uncompressedFile2ReadWriteQueue(): Object size smaller than object header.");
 
     /* create object */
     ObjectHeaderBase * obj = createObject(ohb.objectType);
